@@ -94,6 +94,58 @@ def cmp_codons(res, op, case, o, exp, strand):
         res.deviation(op, case, [lib.loc_strand(c) for c in o[1]], strand, sig=f"{op}-strand")
 
 
+PERMS3 = [p for p in itertools.permutations(range(3)) if p != (0, 1, 2)]
+
+
+def _check_order_and_merge(res, bl, strand, frames, genome, case, exp):
+    """(a) a coding interval is the SET of its (exon, frame) pairs: listing them in any other order (every permutation of
+    three exons, every rotation and the reversal of more) reads the same codons; (b) merging the blocks of a CDS
+    (optimize_blocks / optimize_and_combine_blocks) leaves the source reading the same codons - asked AFTER the merge,
+    on an object that was never asked before, and built from the very same list objects as a sibling that is asked too -
+    and a second merge gives the object the first one gave"""
+    k = len(bl)
+    if k >= 2:
+        if k == 3:
+            perms = PERMS3
+        else:
+            perms = [tuple(range(r, k)) + tuple(range(r)) for r in range(1, k)] + [tuple(range(k - 1, -1, -1))]
+        for pm in dict.fromkeys(perms):
+            o = lib.outcome(lambda: CDSInterval([bl[i][0] for i in pm], [bl[i][1] for i in pm], lib.STRAND[strand], [CDSFrame(frames[i]) for i in pm],
+                                                parent_or_seq_chunk_parent=lib.chrom_parent(genome)).chromosome_codon_locations)
+            res.trans()
+            cmp_codons(res, "permuted.chromosome_codon_locations", dict(op="permuted-codons", perm=list(pm), **case), o, exp, strand)
+    if k < 2:
+        return
+    starts, ends, fr = [b[0] for b in bl], [b[1] for b in bl], [CDSFrame(f) for f in frames]
+    par = lib.chrom_parent(genome)
+    a_ = lib.outcome(lambda: CDSInterval(starts, ends, lib.STRAND[strand], fr, parent_or_seq_chunk_parent=par))
+    b_ = lib.outcome(lambda: CDSInterval(starts, ends, lib.STRAND[strand], fr, parent_or_seq_chunk_parent=par))
+    if a_[0] != "ok" or b_[0] != "ok":
+        return
+    for meth in ("optimize_blocks", "optimize_and_combine_blocks"):
+        m1 = lib.outcome(getattr(a_[1], meth))
+        m2 = lib.outcome(getattr(a_[1], meth))
+        res.trans(2)
+        c = dict(op=meth, **case)
+        if m1[0] != m2[0] or (m1[0] == "ok" and (lib.loc_blocks(m1[1].chromosome_location), [f.value for f in m1[1].frames]) != (lib.loc_blocks(m2[1].chromosome_location), [f.value for f in m2[1].frames])):
+            res.deviation(meth, c, [m2[1] if m2[0] != "ok" else [lib.loc_blocks(m2[1].chromosome_location), [f.value for f in m2[1].frames]]],
+                          [m1[1] if m1[0] != "ok" else [lib.loc_blocks(m1[1].chromosome_location), [f.value for f in m1[1].frames]]], sig="merge-not-repeatable")
+        if m1[0] == "exc" and not lib.is_documented_exc(m1[2]):
+            res.deviation(meth, c, m1[1], "merged CDS or documented exception", sig="merge-internal-error")
+        f0 = frames[0 if strand == "+" else -1]
+        ex5 = F.exons_5to3(bl, strand)
+        if m1[0] == "ok" and exp and len(ex5[0]) >= f0 and list(frames) == F.consistent_frames_plus_order(bl, strand, f0):
+            # one uninterrupted reading frame: the merged CDS reads the very same codons
+            o = lib.outcome(lambda: m1[1].chromosome_codon_locations)
+            cmp_codons(res, meth + ".codons", dict(op=meth + "-codons", **case), o, exp, strand)
+    if [f.value for f in fr] != list(frames) or starts != [b[0] for b in bl] or ends != [b[1] for b in bl]:
+        res.deviation("optimize_blocks", dict(op="merge-arguments", **case), [starts, ends, [f.value for f in fr]], "caller's lists untouched", sig="merge-mutates-arguments")
+    for who, ob in (("merged-source", a_[1]), ("sibling", b_[1])):
+        o = lib.outcome(lambda: ob.chromosome_codon_locations)
+        res.trans()
+        cmp_codons(res, who + ".chromosome_codon_locations", dict(op=who + "-codons", **case), o, exp, strand)
+
+
 def check_struct(res, N, bl, strand, frames, gname, seq_checks=True):
     genome = (GENOMES[gname] * (N // len(GENOMES[gname]) + 2))[:max(N, 1)]
     cds_o = lib.outcome(mk, bl, strand, frames, genome)
@@ -129,6 +181,7 @@ def check_struct(res, N, bl, strand, frames, gname, seq_checks=True):
         o = lib.outcome(lambda: [f.value for f in ph[1].frames])
         if o[0] != "ok" or o[1] != list(frames):
             res.deviation("CDSInterval(phases).frames", dict(op="phases-frames", **case), o[1], list(frames), sig="phases-frames")
+    _check_order_and_merge(res, bl, strand, frames, genome, case, exp)
     if not seq_checks:
         return
     # a fresh object for the sequence paths (history dependence is C10's business): fast path first
